@@ -10,19 +10,38 @@ use proptest::strategy::ValueTree;
 use serde_json::{json, Value};
 use std::process::{Command, Stdio};
 
-pub const RULE: &str = "derive inputs biased to expansions that iterate hashed collections (TryInto enums with 3..8 variants over 3..6 distinct field-type tuples and all reference kinds; FromStr enums with 3..10 variants incl. case-collision groups; Mul-like/MulAssign-like structs with 3..6 distinct field types; Error enums with several generic sources; AsRef/Into type lists) plus the general shape x derive generator; oracle: identical token text when expanded twice, in two different orders of preceding expansions, and in K fresh processes (per-process hash seeds); thorough adds the real proc-macro in separate rustc processes. Non-trivial = the input has >= 3 keys in a collection the expander hashes; distinct by (derive, item)";
+pub const RULE: &str = "derive inputs biased to expansions that iterate hashed collections (TryInto enums with 3..8 variants over 3..6 distinct field-type tuples and all reference kinds; FromStr enums with 3..10 variants incl. case-collision groups; Mul-like/MulAssign-like structs with 3..6 distinct field types; Error enums with several generic sources; AsRef/Into type lists; the same over generic / compound / referenced field types, named and unit variants, per-variant TryInto attributes, attributed / wrapped Error sources, raw and non-ASCII FromStr names) plus the general shape x derive generator, items carrying the attributes of their derive (documented forms, mutations, random bodies), fmt derives (all eight + Debug) whose attributes bound 2..4 distinct generic field types incl. explicit bound(..) attributes, From enums with explicit variants, and the documented attribute forms of every derive (blanket `forward` forms) repeated many times per batch; oracle: identical token text when expanded twice, at every place the same input occurs in one pass, in two different orders of preceding expansions, and in K fresh processes (per-process hash seeds); thorough adds the real proc-macro in separate rustc processes. Non-trivial = the input has >= 3 keys in a collection the expander hashes; distinct by (derive, item)";
 
 #[derive(Clone, Debug)]
 pub struct Case {
     pub derive: String,
     pub item: String,
     pub hashed_keys: usize,
+    /// input class (evidence label `class=..`, see `CLASS_FLOORS`)
+    pub class: &'static str,
 }
+
+/// input classes a run must contain at least this often among the Ok expansions (fractions of the batch)
+const CLASS_FLOORS: [(&str, f64); 10] = [
+    ("attributed-item", 0.01),
+    ("fmt-attribute-with-several-bounded-types", 0.04),
+    ("from-enum-explicit-variants", 0.015),
+    ("try_into-generic-or-per-variant-attrs", 0.04),
+    ("error-attributed-or-wrapped-sources", 0.03),
+    ("mul-like-named-or-compound-types", 0.03),
+    ("from_str-raw-or-non-ascii-names", 0.02),
+    ("try_into-plain", 0.02),
+    ("mul-like-plain", 0.02),
+    ("canonical-attribute-forms", 0.04),
+];
 
 const TYS: [&str; 8] = ["i32", "u8", "String", "bool", "f64", "char", "Vec<u8>", "T"];
 
+/// richer field types for the hashed type sets (C19-2/3/4): references, generic containers, tuples, arrays
+const RICH_TYS: [&str; 12] = ["i32", "T", "Vec<T>", "&'static str", "(i32, T)", "[u8; 2]", "Option<T>", "Box<T>", "&'static T", "String", "u8", "std::collections::BTreeMap<u8, T>"];
+
 fn gen_case(d: &mut Dice) -> Case {
-    match d.weighted(&[3, 2, 3, 2, 2, 2, 3]) {
+    match d.weighted(&[3, 2, 3, 2, 2, 2, 3, 3, 4, 2, 3, 2, 2, 1, 3]) {
         0 => {
             // TryInto: group by (ref kind, types)
             let nv = d.range(3, 8);
@@ -35,7 +54,7 @@ fn gen_case(d: &mut Dice) -> Case {
                 vs.push(format!("V{i}({})", tys.join(", ")));
             }
             let attr = ["", "#[try_into(owned, ref, ref_mut)] ", "#[try_into(ref)] "][d.pick(3)];
-            Case { derive: "TryInto".into(), item: format!("{attr}enum E {{ {} }}", vs.join(", ")), hashed_keys: keys.len() }
+            Case { derive: "TryInto".into(), item: format!("{attr}enum E {{ {} }}", vs.join(", ")), hashed_keys: keys.len(), class: "try_into-plain" }
         }
         1 => {
             let pool = ["Foo", "FOO", "foo", "Bar", "Baz", "bar", "Qux", "QuX", "Zed", "A", "a", "Bb"];
@@ -48,7 +67,7 @@ fn gen_case(d: &mut Dice) -> Case {
                 }
             }
             let keys: std::collections::BTreeSet<String> = names.iter().map(|n| n.to_lowercase()).collect();
-            Case { derive: "FromStr".into(), item: format!("enum E {{ {} }}", names.join(", ")), hashed_keys: keys.len() }
+            Case { derive: "FromStr".into(), item: format!("enum E {{ {} }}", names.join(", ")), hashed_keys: keys.len(), class: "from_str-plain" }
         }
         2 => {
             let der = ["Mul", "Div", "Rem", "Shr", "Shl", "MulAssign", "DivAssign", "RemAssign", "ShrAssign", "ShlAssign"][d.pick(10)];
@@ -56,7 +75,7 @@ fn gen_case(d: &mut Dice) -> Case {
             let tys: Vec<&str> = (0..nf).map(|_| TYS[d.pick(8)]).collect();
             let keys: std::collections::BTreeSet<&str> = tys.iter().copied().collect();
             let generic = if tys.contains(&"T") { "<T>" } else { "" };
-            Case { derive: der.into(), item: format!("struct S{generic}({});", tys.join(", ")), hashed_keys: keys.len() }
+            Case { derive: der.into(), item: format!("struct S{generic}({});", tys.join(", ")), hashed_keys: keys.len(), class: "mul-like-plain" }
         }
         3 => {
             let nv = d.range(2, 5);
@@ -66,6 +85,7 @@ fn gen_case(d: &mut Dice) -> Case {
                 derive: "Error".into(),
                 item: format!("enum E<{}> {{ {} }}", gens[..nv].join(", "), vs.join(", ")),
                 hashed_keys: nv,
+                class: "error-plain",
             }
         }
         4 => {
@@ -73,21 +93,322 @@ fn gen_case(d: &mut Dice) -> Case {
             let nf = d.range(2, 5);
             let tys: Vec<&str> = (0..nf).map(|_| TYS[d.pick(8)]).collect();
             let generic = if tys.contains(&"T") { "<T>" } else { "" };
-            Case { derive: der.into(), item: format!("struct S{generic}({});", tys.join(", ")), hashed_keys: 0 }
+            Case { derive: der.into(), item: format!("struct S{generic}({});", tys.join(", ")), hashed_keys: 0, class: "add-like" }
         }
         5 => {
             let n = d.range(2, 5);
             let tys: Vec<&str> = (0..n).map(|i| TYS[(i + d.pick(3)) % 7]).collect();
             let (der, attr) = [("From", "from"), ("Into", "into"), ("AsRef", "as_ref")][d.pick(3)];
-            Case { derive: der.into(), item: format!("#[{attr}({})] struct S(i32);", tys.join(", ")), hashed_keys: 0 }
+            Case { derive: der.into(), item: format!("#[{attr}({})] struct S(i32);", tys.join(", ")), hashed_keys: 0, class: "type-list" }
         }
-        _ => {
+        6 => {
             // general shape x derive
             let der = Derive(d.pick(dm::DERIVES.len()));
             let item = super::p18::gen_plain_item(d);
-            Case { derive: der.name().into(), item, hashed_keys: 0 }
+            Case { derive: der.name().into(), item, hashed_keys: 0, class: "plain-item" }
+        }
+        7 => {
+            // C19-1: items that carry attributes of the derive (documented forms, mutations, random bodies) on
+            // container / variant / field positions: every attribute-driven expansion path
+            let c = super::p18::gen_attributed_case(d);
+            Case { derive: c.derive, item: c.item, hashed_keys: 0, class: "attributed-item" }
+        }
+        8 => gen_fmt_case(d),
+        9 => {
+            // C19-1: From on enums with explicit `#[from]` / `#[from(types)]` / `#[from(forward)]` / skipped variants
+            let nv = d.range(2, 6);
+            let tys = ["i32", "u8", "String", "bool", "f64", "char", "i64", "u16"];
+            let off = d.pick(tys.len());
+            let vs: Vec<String> = (0..nv)
+                .map(|i| {
+                    let t = tys[(off + i) % tys.len()];
+                    let a = match d.pick(6) {
+                        0 | 1 => "#[from] ".to_string(),
+                        2 => format!("#[from({t}, ({t},))] "),
+                        3 => "#[from(skip)] ".to_string(),
+                        4 => String::new(),
+                        _ => "#[from(forward)] ".to_string(),
+                    };
+                    if d.chance(30) {
+                        format!("{a}V{i} {{ x: {t} }}")
+                    } else {
+                        format!("{a}V{i}({t})")
+                    }
+                })
+                .collect();
+            Case { derive: "From".into(), item: format!("enum E {{ {} }}", vs.join(", ")), hashed_keys: 0, class: "from-enum-explicit-variants" }
+        }
+        10 => {
+            // C19-2: TryInto over generic / compound field types, named and unit variants, per-variant attributes
+            let nv = d.range(3, 8);
+            let mut vs = vec![];
+            let mut keys = std::collections::BTreeSet::new();
+            let mut uses_t = false;
+            for i in 0..nv {
+                let nf = d.range(0, 3);
+                let tys: Vec<&str> = (0..nf).map(|_| RICH_TYS[d.pick(RICH_TYS.len())]).collect();
+                uses_t |= tys.iter().any(|t| t.contains('T'));
+                let a = match d.pick(8) {
+                    0 => "#[try_into(ignore)] ",
+                    1 => "#[try_into(ref)] ",
+                    2 => "#[try_into(owned, ref_mut)] ",
+                    3 => "#[try_into] ",
+                    4 => "#[try_into(ref, ref_mut, owned)] ",
+                    _ => "",
+                };
+                keys.insert(format!("{a}{}", tys.join(",")));
+                vs.push(match d.pick(4) {
+                    0 if nf > 0 => format!("{a}V{i} {{ {} }}", tys.iter().enumerate().map(|(k, t)| format!("f{k}: {t}")).collect::<Vec<_>>().join(", ")),
+                    1 if nf == 0 => format!("{a}V{i}"),
+                    _ => format!("{a}V{i}({})", tys.join(", ")),
+                });
+            }
+            let attr = ["", "#[try_into(owned, ref, ref_mut)] ", "#[try_into(ref)] ", "#[try_into(ref_mut, owned)] "][d.pick(4)];
+            // (the parameter is declared whether it is used or not: expansion does not depend on rustc's checks)
+            let generics = if uses_t || d.chance(30) { "<T>" } else { "" };
+            Case { derive: "TryInto".into(), item: format!("{attr}enum E{generics} {{ {} }}", vs.join(", ")), hashed_keys: keys.len(), class: "try_into-generic-or-per-variant-attrs" }
+        }
+        11 => {
+            // C19-3: Error over tuple variants / structs with explicit selectors, wrapped and referenced generic sources,
+            // backtrace fields
+            let nv = d.range(2, 5);
+            let gens = ["A", "B", "C", "D", "E2"];
+            let wrap = |d: &mut Dice, g: &str| -> String {
+                match d.pick(6) {
+                    0 => format!("Box<{g}>"),
+                    1 => format!("&'static {g}"),
+                    2 => format!("Vec<{g}>"),
+                    3 => format!("<{g} as Tr>::Out"),
+                    _ => g.to_string(),
+                }
+            };
+            let vs: Vec<String> = (0..nv)
+                .map(|i| {
+                    let g = wrap(d, gens[i]);
+                    match d.pick(6) {
+                        0 => format!("V{i}(#[error(source)] {g}, i32)"),
+                        1 => format!("V{i}({g})"),
+                        2 => format!("V{i}({g}, std::backtrace::Backtrace)"),
+                        3 => format!("V{i} {{ #[error(source)] inner: {g}, #[error(not(source))] source: i32 }}"),
+                        4 => format!("#[error(ignore)] V{i}({g})"),
+                        _ => format!("V{i} {{ source: {g}, backtrace: Backtrace }}"),
+                    }
+                })
+                .collect();
+            let generics = gens[..nv].join(", ");
+            let item = if d.chance(20) {
+                // one struct: a single bound, but the same attribute paths
+                format!("struct S<{generics}>(#[error(source)] {}, {});", wrap(d, gens[0]), gens[1..nv].iter().map(|g| format!("core::marker::PhantomData<{g}>")).collect::<Vec<_>>().join(", "))
+            } else {
+                format!("enum E<{generics}> {{ {} }}", vs.join(", "))
+            };
+            Case { derive: "Error".into(), item, hashed_keys: nv, class: "error-attributed-or-wrapped-sources" }
+        }
+        12 => {
+            // C19-4: Mul-like over named structs and compound field types
+            let der = ["Mul", "Div", "Rem", "Shr", "Shl", "MulAssign", "DivAssign", "RemAssign", "ShrAssign", "ShlAssign"][d.pick(10)];
+            let nf = d.range(3, 6);
+            let tys: Vec<&str> = (0..nf).map(|_| RICH_TYS[d.pick(RICH_TYS.len())]).collect();
+            let keys: std::collections::BTreeSet<&str> = tys.iter().copied().collect();
+            let generic = if tys.iter().any(|t| t.contains('T')) { "<T>" } else { "" };
+            let item = if d.chance(60) {
+                format!("struct S{generic} {{ {} }}", tys.iter().enumerate().map(|(k, t)| format!("f{k}: {t}")).collect::<Vec<_>>().join(", "))
+            } else {
+                format!("struct S{generic}({});", tys.join(", "))
+            };
+            Case { derive: der.into(), item, hashed_keys: keys.len(), class: "mul-like-named-or-compound-types" }
+        }
+        14 => {
+            // history: documented attribute forms of every attribute-taking derive, each occurring many times in a batch
+            // under few names (so the same item is expanded after many different prefixes), in particular the blanket
+            // `forward` forms whose expansions introduce type parameters of their own (`__AsT`, `__FromT0`, `__RhsT`, ..)
+            let (derive, item) = CANONICAL[d.pick(CANONICAL.len())];
+            let name = ["S", "Wrapper", "Foo"][d.pick(3)];
+            Case { derive: derive.into(), item: item.replace("@N", name), hashed_keys: 0, class: "canonical-attribute-forms" }
+        }
+        _ => {
+            // C19-5: FromStr over raw identifiers and names whose lowercase form is not ASCII (or changes length)
+            let pool = ["r#type", "r#Type", "TYPE", "r#match", "Match", "Ünï", "ünï", "ÜNÏ", "İx", "ix", "Straße", "STRASSE", "Ωmega", "ωmega", "Foo", "foo", "Σ", "σ", "ς"];
+            let nv = d.range(3, 10);
+            let mut names: Vec<&str> = vec![];
+            for _ in 0..nv {
+                let n = pool[d.pick(pool.len())];
+                if !names.contains(&n) {
+                    names.push(n);
+                }
+            }
+            let keys: std::collections::BTreeSet<String> = names.iter().map(|n| n.trim_start_matches("r#").to_lowercase()).collect();
+            Case { derive: "FromStr".into(), item: format!("enum E {{ {} }}", names.join(", ")), hashed_keys: keys.len(), class: "from_str-raw-or-non-ascii-names" }
         }
     }
+}
+
+/// documented attribute forms (impl/doc/*.md), `@N` = the type name
+const CANONICAL: [(&str, &str); 44] = [
+    ("AsRef", "#[as_ref(forward)] struct @N(Vec<i32>);"),
+    ("AsRef", "struct @N { #[as_ref(forward)] a: String, b: u8 }"),
+    ("AsRef", "#[as_ref(forward)] struct @N<T>(Vec<T>);"),
+    ("AsRef", "#[as_ref(str, [u8], String)] struct @N(String);"),
+    ("AsRef", "struct @N { #[as_ref] a: String, #[as_ref(skip)] b: u8, c: i32 }"),
+    ("AsMut", "#[as_mut(forward)] struct @N(Vec<i32>);"),
+    ("AsMut", "struct @N { #[as_mut(forward)] a: String, b: u8 }"),
+    ("AsMut", "#[as_mut(forward)] struct @N<T>(Vec<T>);"),
+    ("AsMut", "#[as_mut(str, String)] struct @N(String);"),
+    ("From", "#[from(forward)] struct @N(i64);"),
+    ("From", "#[from(forward)] struct @N { a: i64, b: String }"),
+    ("From", "enum @N { #[from(forward)] A(i64), #[from(skip)] B(i64) }"),
+    ("From", "#[from(i8, i16)] struct @N(i32);"),
+    ("Into", "#[into(owned, ref(i32), ref_mut)] struct @N(i32);"),
+    ("Into", "#[into(i64, i128)] struct @N(i32);"),
+    ("Into", "struct @N { #[into] a: i32, #[into(skip)] b: u8 }"),
+    ("Into", "#[into(ref((i32, u8)))] struct @N<T>(i32, u8, #[into(skip)] T);"),
+    ("Deref", "#[deref(forward)] struct @N(Box<i32>);"),
+    ("Deref", "struct @N { #[deref(forward)] a: Box<i32>, b: u8 }"),
+    ("Deref", "struct @N<T> { #[deref] a: Vec<T>, b: u8 }"),
+    ("DerefMut", "#[deref_mut(forward)] struct @N(Box<i32>);"),
+    ("DerefMut", "struct @N { #[deref_mut] a: Vec<i32>, b: u8 }"),
+    ("Index", "struct @N { #[index] a: Vec<i32>, b: u8 }"),
+    ("IndexMut", "struct @N<T> { #[index_mut] a: Vec<T>, b: u8 }"),
+    ("IntoIterator", "#[into_iterator(owned, ref, ref_mut)] struct @N(Vec<i32>);"),
+    ("IntoIterator", "struct @N<T> { #[into_iterator(ref)] a: Vec<T>, b: u8 }"),
+    ("Mul", "#[mul(forward)] struct @N(i32);"),
+    ("Mul", "struct @N<T>(T, i32);"),
+    ("Mul", "#[mul(forward)] enum @N { A(i32), B(i32) }"),
+    ("MulAssign", "#[mul_assign(forward)] struct @N(i32);"),
+    ("MulAssign", "struct @N<T>(T, T);"),
+    ("Constructor", "struct @N<T> { a: T, b: i32 }"),
+    ("IsVariant", "enum @N<T> { A(T), #[is_variant(ignore)] B, FooBar { x: i32 } }"),
+    ("Unwrap", "#[unwrap(ref, ref_mut)] enum @N<T> { A(T), #[unwrap(ignore)] B, C(i32, u8) }"),
+    ("TryUnwrap", "#[try_unwrap(ref)] enum @N<T> { A(T), B, C(i32, u8) }"),
+    ("TryInto", "#[try_into(owned, ref, ref_mut)] enum @N { A(i32), B(u8), #[try_into(ignore)] C(i32) }"),
+    ("TryFrom", "#[try_from(repr)] #[repr(u8)] enum @N { A, B = 5, C(i32), D {} }"),
+    ("Error", "struct @N<E> { #[error(source)] inner: E, #[error(not(source))] source: i32 }"),
+    ("Error", "enum @N<E> { A(E), #[error(ignore)] B(E), C { source: E, backtrace: Backtrace } }"),
+    ("Display", "#[display(\"{a} {b:?}\")] struct @N<A, B> { a: A, b: B }"),
+    ("Display", "#[display(\"<{_variant}>\")] #[display(rename_all = \"snake_case\")] enum @N<T> { FooBar, #[display(\"{_0}\")] Baz(T) }"),
+    ("Debug", "#[debug(bound(T: Clone))] struct @N<T, U> { #[debug(\"{a:x}\")] a: T, #[debug(skip)] b: U, c: U }"),
+    ("FromStr", "enum @N { Foo, FOO, Bar }"),
+    ("Sum", "struct @N<T>(T, i32);"),
+];
+
+/// C19-1: fmt derives whose attributes make several generic field types bounded, on structs, variants, fields and
+/// with explicit `bound(..)` / `rename_all` attributes (the where-clause and the match arms are assembled from them)
+fn gen_fmt_case(d: &mut Dice) -> Case {
+    let gens = ["A", "B", "C", "D"];
+    let ng = d.range(2, 4);
+    let wrap = |d: &mut Dice, g: &str| -> String {
+        match d.pick(5) {
+            0 => format!("Vec<{g}>"),
+            1 => format!("&'static {g}"),
+            2 => format!("Option<{g}>"),
+            _ => g.to_string(),
+        }
+    };
+    let specs = ["", ":?", ":x", ":>8", ":#?", ":e", ":p", ":o"];
+    let generics = gens[..ng].join(", ");
+    let bound = |d: &mut Dice| -> String {
+        let n = d.range(1, 3);
+        let ps: Vec<String> = (0..n).map(|_| format!("{}: {}", gens[d.pick(ng)], ["Clone", "Copy", "core::fmt::Debug", "Send"][d.pick(4)])).collect();
+        format!("({}({}))", ["bound", "bounds"][d.pick(2)], ps.join(", "))
+    };
+    let (derive, attr) = [
+        ("Display", "display"),
+        ("Debug", "debug"),
+        ("LowerHex", "lower_hex"),
+        ("Pointer", "pointer"),
+        ("Binary", "binary"),
+        ("Octal", "octal"),
+        ("UpperHex", "upper_hex"),
+        ("LowerExp", "lower_exp"),
+        ("UpperExp", "upper_exp"),
+    ][d.weighted(&[5, 5, 1, 1, 1, 1, 1, 1, 1])];
+    let item = match d.pick(4) {
+        0 => {
+            // struct-level literal over named fields, in a dice-chosen order, some fields via arguments
+            let tys: Vec<String> = (0..ng).map(|i| wrap(d, gens[i])).collect();
+            let mut lit = String::new();
+            let mut args = vec![];
+            let off = d.pick(ng);
+            for k in 0..ng {
+                let i = (off + k) % ng;
+                let sp = specs[d.pick(specs.len())];
+                if d.chance(30) {
+                    lit.push_str(&format!("{{{sp}}} "));
+                    args.push(format!("f{i}"));
+                } else {
+                    lit.push_str(&format!("{{f{i}{sp}}} "));
+                }
+            }
+            let b = if d.chance(40) { format!("#[{attr}{}] ", bound(d)) } else { String::new() };
+            let b2 = if d.chance(20) { format!("#[{attr}{}] ", bound(d)) } else { String::new() };
+            let a = format!("#[{attr}({}{})] ", proc_macro2::Literal::string(lit.trim_end()), args.iter().map(|a| format!(", {a}")).collect::<String>());
+            let fields = tys.iter().enumerate().map(|(i, t)| format!("f{i}: {t}")).collect::<Vec<_>>().join(", ");
+            format!("{b}{a}{b2}struct S<{generics}> {{ {fields} }}")
+        }
+        1 => {
+            // tuple struct, positional names
+            let tys: Vec<String> = (0..ng).map(|i| wrap(d, gens[i])).collect();
+            let lit: String = (0..ng).rev().map(|i| format!("{{_{i}{}}}", specs[d.pick(specs.len())])).collect::<Vec<_>>().join("-");
+            format!("#[{attr}({})] struct S<{generics}>({});", proc_macro2::Literal::string(&lit), tys.join(", "))
+        }
+        2 => {
+            // enum: a format per variant (+ a shared one / rename_all for Display), unit variants
+            let mut vs = vec![];
+            for i in 0..ng {
+                let t = wrap(d, gens[i]);
+                let sp = specs[d.pick(specs.len())];
+                vs.push(match d.pick(4) {
+                    0 => format!("#[{attr}(\"v{i} {{_0{sp}}}\")] V{i}({t})"),
+                    1 => format!("#[{attr}(\"{{x{sp}}} {{}}\", 1 + 1)] V{i} {{ x: {t} }}"),
+                    2 if derive == "Display" || derive == "Debug" => format!("V{i}({t})"),
+                    _ => format!("#[{attr}(\"{{}}\", _0)] V{i}({t})"),
+                });
+            }
+            if derive == "Display" || derive == "Debug" {
+                vs.push("UnitOne".into());
+                vs.push("r#Two".into());
+            }
+            let top = if derive == "Display" {
+                match d.pick(4) {
+                    0 => "#[display(\"<{_variant}>\")] ".to_string(),
+                    1 => format!("#[display(rename_all = \"{}\")] ", ["snake_case", "SCREAMING-KEBAB-CASE", "camelCase"][d.pick(3)]),
+                    2 => format!("#[display{}] ", bound(d)),
+                    _ => String::new(),
+                }
+            } else if d.chance(40) {
+                format!("#[{attr}{}] ", bound(d))
+            } else {
+                String::new()
+            };
+            format!("{top}enum E<{generics}> {{ {} }}", vs.join(", "))
+        }
+        _ => {
+            // Debug: field-level formats and skips (for the other derives: struct-level literal with arguments only)
+            let tys: Vec<String> = (0..ng).map(|i| wrap(d, gens[i])).collect();
+            if derive == "Debug" {
+                let fields: Vec<String> = tys
+                    .iter()
+                    .enumerate()
+                    .map(|(i, t)| {
+                        let a = match d.pick(4) {
+                            0 => format!("#[debug(\"{{f{i}{}}}\")] ", specs[d.pick(specs.len())]),
+                            1 => format!("#[debug(\"{{}}\", f{})] ", (i + 1) % ng),
+                            2 => "#[debug(skip)] ".to_string(),
+                            _ => String::new(),
+                        };
+                        format!("{a}f{i}: {t}")
+                    })
+                    .collect();
+                format!("struct S<{generics}> {{ {} }}", fields.join(", "))
+            } else {
+                let args: Vec<String> = (0..ng).map(|i| format!("f{i}")).collect();
+                let lit: String = (0..ng).map(|_| format!("{{{}}}", specs[d.pick(specs.len())])).collect::<Vec<_>>().join(" ");
+                let fields = tys.iter().enumerate().map(|(i, t)| format!("f{i}: {t}")).collect::<Vec<_>>().join(", ");
+                format!("#[{attr}({}, {})] struct S<{generics}> {{ {fields} }}", proc_macro2::Literal::string(&lit), args.join(", "))
+            }
+        }
+    };
+    Case { derive: derive.into(), item, hashed_keys: 0, class: "fmt-attribute-with-several-bounded-types" }
 }
 
 pub fn gen_batch(seed: u64, tier: Tier) -> Vec<Case> {
@@ -102,7 +423,7 @@ pub fn gen_batch(seed: u64, tier: Tier) -> Vec<Case> {
         ("Mul", "struct S(i32, u8, String, bool, f64, char);"),
         ("Error", "enum E<A, B, C, D> { V0 { source: A }, V1 { source: B }, V2 { source: C }, V3 { source: D } }"),
     ] {
-        v.push(Case { derive: d.into(), item: i.into(), hashed_keys: 4 });
+        v.push(Case { derive: d.into(), item: i.into(), hashed_keys: 4, class: "regression-seed" });
     }
     v
 }
@@ -155,6 +476,7 @@ pub fn run(ctx: &Ctx) -> Report {
         } else {
             ok += 1;
             rep.evidence.label(&format!("derive_class={}", class_of(&c.derive)));
+            rep.evidence.label(&format!("class={}", c.class));
             if c.hashed_keys >= 3 {
                 rep.evidence.nontrivial(&format!("{}|{}", c.derive, c.item));
             }
@@ -164,6 +486,13 @@ pub fn run(ctx: &Ctx) -> Report {
         }
     }
     let _ = ok;
+    for (cl, frac) in CLASS_FLOORS {
+        let n = rep.evidence.labels.get(&format!("class={cl}")).copied().unwrap_or(0);
+        let min = (frac * batch.len() as f64) as u64;
+        if n < min {
+            rep.infra_errors.push(format!("generator distribution: input class `{cl}` has {n} Ok expansions, floor {min}"));
+        }
+    }
     let mut report = |i: usize, what: &str, a: &str, b: &str, rep: &mut Report| {
         let c = &batch[i];
         rep.violations.push(Violation {
@@ -174,6 +503,25 @@ pub fn run(ctx: &Ctx) -> Report {
             observed: b.chars().take(1500).collect(),
         });
     };
+    // the same input at different places of one pass (= after different prefixes of other expansions)
+    {
+        let mut first_at: std::collections::HashMap<(&str, &str), usize> = std::collections::HashMap::new();
+        let mut dup_inputs = 0u64;
+        for (i, c) in batch.iter().enumerate() {
+            match first_at.get(&(c.derive.as_str(), c.item.as_str())) {
+                None => {
+                    first_at.insert((c.derive.as_str(), c.item.as_str()), i);
+                }
+                Some(&j) => {
+                    dup_inputs += 1;
+                    if first[i] != first[j] {
+                        report(i, "the same input expands differently at two places of one pass (expansion depends on what was expanded before)", &first[j], &first[i], &mut rep);
+                    }
+                }
+            }
+        }
+        rep.evidence.set("repeated_inputs_in_one_pass", json!(dup_inputs));
+    }
     // twice
     for (i, c) in batch.iter().enumerate() {
         let again = expand_text(c);
@@ -310,7 +658,7 @@ fn real_compiler_runs(ctx: &Ctx, batch: &[Case], first: &[String]) -> Result<usi
 pub fn replay(ctx: &Ctx, case: &Value) -> Report {
     let mut rep = Report::new(RULE);
     rep.evidence.eval(1);
-    let c = Case { derive: case["derive"].as_str().unwrap_or("").into(), item: case["item"].as_str().unwrap_or("").into(), hashed_keys: 0 };
+    let c = Case { derive: case["derive"].as_str().unwrap_or("").into(), item: case["item"].as_str().unwrap_or("").into(), hashed_keys: 0, class: "replay" };
     let a = expand_text(&c);
     // compare with 8 fresh processes expanding only this case
     let exe = std::env::current_exe().unwrap();
@@ -335,7 +683,7 @@ pub fn replay(ctx: &Ctx, case: &Value) -> Report {
 }
 
 pub fn worker_one(args: &[String]) -> i32 {
-    let c = Case { derive: args.first().cloned().unwrap_or_default(), item: args.get(1).cloned().unwrap_or_default(), hashed_keys: 0 };
+    let c = Case { derive: args.first().cloned().unwrap_or_default(), item: args.get(1).cloned().unwrap_or_default(), hashed_keys: 0, class: "replay" };
     println!("{:016x}", fnv(&expand_text(&c)));
     0
 }
